@@ -19,3 +19,9 @@ package eheap
 //@   trusted
 //@   noframe
 //@   ensures result == has(gmap("items", eh), str(item))
+//@ func (*ExpiryHeap).SetMin
+//@   trusted
+//@   noframe
+//@   modifies gmap("items", eh)[]
+//@   ensures forall q string :: has(gmap("items", eh), q) ==> old(has(gmap("items", eh), q))
+//@   ensures forall j int :: 0 <= j && j < len(result) ==> old(has(gmap("items", eh), str(Item.GetID(result[j])))) && !has(gmap("items", eh), str(Item.GetID(result[j])))
